@@ -322,3 +322,80 @@ func isEventsList(addr ssa.Value) bool {
 	t, f, _, ok := FieldOf(addr)
 	return ok && t == PkgServer+".Teamserver" && f == "EventsList"
 }
+
+// R13Regenerated — what the replay regenerates is not retained as well.
+func R13Regenerated(c *Ctx) {
+	const rule = "R13-regenerated-onetime"
+	c.R.Rule(rule, "every event that SendAllPackagesToNewClient regenerates for a new operator from live state (the new-session announcement of each active agent) is built by a constructor that marks it one-time on every path (Head.OneTime = \"true\"), so EventAppend never retains it: otherwise a later operator gets it twice, or still gets it for a session that has died", 1)
+	sa := c.P.Func(PkgServer, "Teamserver.SendAllPackagesToNewClient")
+	if sa == nil {
+		c.R.Anchor(rule, "server.(*Teamserver).SendAllPackagesToNewClient")
+		return
+	}
+	// constructors reachable (static calls, module only, depth 3) from the calls in SendAllPackagesToNewClient
+	// whose result type is packager.Package
+	seen := map[*ssa.Function]bool{}
+	var ctors []*ssa.Function
+	var visit func(fn *ssa.Function, depth int)
+	visit = func(fn *ssa.Function, depth int) {
+		if seen[fn] || depth > 3 || fn.Blocks == nil {
+			return
+		}
+		seen[fn] = true
+		EachCall(fn, func(call ssa.CallInstruction) {
+			callee := call.Common().StaticCallee()
+			if callee == nil || !c.P.InModule(FuncPkgPathOf(callee)) {
+				return
+			}
+			if strings.HasSuffix(CalleeName(call), ".SendEvent") {
+				return
+			}
+			res := callee.Signature.Results()
+			if res.Len() == 1 && strings.HasSuffix(res.At(0).Type().String(), "packager.Package") {
+				if FuncPkgPathOf(callee) == "Havoc/pkg/events" {
+					ctors = append(ctors, callee)
+					return
+				}
+				visit(callee, depth+1)
+			}
+		})
+	}
+	visit(sa, 0)
+	if len(ctors) == 0 {
+		c.R.Anchor(rule, "an events.* constructor used by the replay of live sessions")
+		return
+	}
+	for _, ctor := range ctors {
+		marked := false
+		for _, b := range ctor.Blocks {
+			for _, in := range b.Instrs {
+				st, ok := in.(*ssa.Store)
+				if !ok {
+					continue
+				}
+				if _, f, _, ok := FieldOf(st.Addr); ok && f == "OneTime" {
+					if s, isC := ConstString(st.Val); isC && s == "true" {
+						// on every path: the block dominates every return
+						all := true
+						for _, rb := range ctor.Blocks {
+							if len(rb.Instrs) > 0 {
+								if _, isRet := rb.Instrs[len(rb.Instrs)-1].(*ssa.Return); isRet && !b.Dominates(rb) {
+									all = false
+								}
+							}
+						}
+						if all {
+							marked = true
+						}
+					}
+				}
+			}
+		}
+		construct := "regenerated event built one-time"
+		if marked {
+			c.R.Ok(rule, FuncShort(ctor), construct, c.pos(ctor.Pos()), "Head.OneTime = \"true\" on every path", true)
+		} else {
+			c.R.Bad(rule, FuncShort(ctor), construct, c.pos(ctor.Pos()), "the replay regenerates this event from live state but its constructor does not mark it one-time: EventAppend retains every instance and a later operator receives the session twice — and still as new after it died")
+		}
+	}
+}
